@@ -98,14 +98,15 @@ type file struct {
 
 // FS is an in-memory types.VFS.
 type FS struct {
-	W          *World
-	files      []*file
-	Handles    int // handles opened and not yet closed
-	Created    []string
-	Deleted    []string
-	Syncs      int
-	Collisions int // Create calls that hit an existing name
-	ReadHook   func(name string)
+	W               *World
+	files           []*file
+	Handles         int // handles opened and not yet closed
+	Created         []string
+	Deleted         []string
+	Syncs           int
+	Collisions      int  // Create calls that hit an existing name
+	OpenWriterPlain bool // model an OpenWriter whose Sync does not fsync the directory (the pinned fs package)
+	ReadHook        func(name string)
 }
 
 func NewFS(w *World) *FS { return &FS{W: w} }
@@ -224,7 +225,8 @@ func (fs *FS) OpenWriter(dir, name string) (types.WritableFile, error) {
 	}
 	fs.Handles++
 	f.handles++
-	return &handle{fs: fs, f: f, writable: true}, nil
+	// like fs.FS.OpenWriter: the first Sync through this handle also fsyncs the directory
+	return &handle{fs: fs, f: f, created: !fs.OpenWriterPlain, writable: true}, nil
 }
 
 type handle struct {
@@ -308,7 +310,7 @@ func (h *handle) Sync() error {
 	f.pend = nil
 	f.synced = true
 	if h.created {
-		// fs.File.Sync: the first sync of a newly created file also fsyncs the directory
+		// fs.File.Sync: the first sync through a handle from Create or OpenWriter also fsyncs the directory
 		f.durDir = true
 	}
 	h.fs.Syncs++
@@ -377,6 +379,30 @@ func (fs *FS) CrashImage(w2 *World) *FS {
 		}
 		img.files = append(img.files, &file{name: f.name, data: base, exists: true, size: f.size,
 			durData: append([]byte(nil), base...), synced: true, durDir: true})
+	}
+	return img
+}
+
+// ProcessCrashImage returns the file system as the next process incarnation
+// finds it after a crash of the process only: the page cache survives, so it
+// sees the volatile contents, but nothing became durable - the pending writes
+// and the not-yet-durable directory entries stay pending and can still be lost
+// by a later power loss (CrashImage of the result).
+func (fs *FS) ProcessCrashImage(w2 *World) *FS {
+	img := NewFS(w2)
+	for _, f := range fs.files {
+		if !f.exists && !f.durDir {
+			continue
+		}
+		n := &file{name: f.name, data: append([]byte(nil), f.data...), exists: f.exists, size: f.size,
+			synced: f.synced, durDir: f.durDir}
+		if f.durData != nil {
+			n.durData = append([]byte(nil), f.durData...)
+		}
+		for _, pw := range f.pend {
+			n.pend = append(n.pend, pendWrite{off: pw.off, data: append([]byte(nil), pw.data...)})
+		}
+		img.files = append(img.files, n)
 	}
 	return img
 }
